@@ -271,6 +271,12 @@ type Sess struct {
 	OnExec  func(ctx context.Context, st *Stmt, w wire.DataWriter, params []wire.Parameter) // optional extra observer
 	Ctxs    []context.Context                                                               // command contexts captured by callbacks
 	KeepCtx bool
+	// ReuseStmt: the parser keeps one prepared-statement object for the session and reconfigures it
+	// (parameters, columns) for every Parse, as a handler with a per-session template does. What was
+	// defined by an earlier Parse stays what it was.
+	ReuseStmt bool
+	template  *wire.PreparedStatement
+	tmplStmt  *Stmt
 
 	rowMu     sync.Mutex
 	rowCancel context.CancelFunc
@@ -365,6 +371,18 @@ func Parse(ctx context.Context, query string) (wire.PreparedStatements, error) {
 			opts = append(opts, wire.WithParameters(wire.ParseParameters(query)))
 		} else if st.Params != nil {
 			opts = append(opts, wire.WithParameters(append([]oid.Oid{}, st.Params...))) // the script keeps its own list: what the library does to the one it was given is the library's business
+		}
+		if s.ReuseStmt && len(p.Stmts) == 1 {
+			s.tmplStmt = st
+			if s.template == nil {
+				s.template = wire.NewStatement(func(ctx context.Context, w wire.DataWriter, params []wire.Parameter) error {
+					return runStmt(ctx, s, s.tmplStmt, w, params)
+				})
+			}
+			for _, o := range opts {
+				o(s.template)
+			}
+			return wire.PreparedStatements{s.template}, nil
 		}
 		out = append(out, wire.NewStatement(func(ctx context.Context, w wire.DataWriter, params []wire.Parameter) error {
 			if st.EchoQuery {
@@ -509,6 +527,11 @@ var OwnErrs = []error{
 	fmt.Errorf("harness: backend connection: %w", net.ErrClosed),
 	fmt.Errorf("harness: cancelled: %w", context.Canceled),
 	fmt.Errorf("harness: premature end: %w", io.EOF),
+	// a failure is a failure whatever severity the handler gives it
+	psqlerr.WithSeverity(ErrOwn, psqlerr.LevelWarning),
+	psqlerr.WithSeverity(psqlerr.WithCode(errors.New("harness: handler gave up on copy (notice)"), codes.DataException), psqlerr.LevelNotice),
+	psqlerr.WithSeverity(fmt.Errorf("harness: logged failure: %w", io.ErrUnexpectedEOF), psqlerr.LevelLog),
+	psqlerr.WithSeverity(ErrOwn, psqlerr.LevelFatal),
 }
 
 func runCopy(ctx context.Context, c *tr.Conn, st *Stmt, w wire.DataWriter, plan *CopyPlan) error {
